@@ -110,3 +110,104 @@ func VerifC36InnerRing() {
 	}
 	vrt.Reach("end")
 }
+
+// VerifC36InnerRingFull: updateInnerRing as the governance processor calls it -
+// with the whole current alphabet and the whole new alphabet, both sorted. The
+// inner ring list is the alphabet plus up to two extra members at arbitrary
+// positions; an extra member may be one of the keys that join the alphabet
+// (a non-alphabet inner ring node promoted by the main network). The new list
+// has no duplicates and differs from the old one exactly by the replaced keys.
+func VerifC36InnerRingFull() {
+	c36ids = map[*keys.PublicKey]int{}
+	keys.VerifKeyID = func(p *keys.PublicKey) int { return c36ids[p] }
+	n := 1 + vrt.Choice("alphabetSize", vrt.Param("RMAX"))
+	// identities: the alphabet is 10, 20, ..; joining keys sit between or after them
+	alphabet := make(keys.PublicKeys, n)
+	for i := range alphabet {
+		alphabet[i] = c36key(10 * (i + 1))
+	}
+	// which members leave (at most floor((n-1)/3), as newAlphabetList guarantees)
+	limit := (n - 1) / 3
+	leaves := make([]bool, n)
+	nl := 0
+	for i := 0; i < n && nl < limit; i++ {
+		if vrt.Bool("memberLeaves") {
+			leaves[i] = true
+			nl++
+		}
+	}
+	vrt.Assume(nl > 0) // something changed
+	var joinIDs []int
+	for k := 0; k < nl; k++ {
+		// a joining key sorts anywhere among the current ones
+		id := 10*vrt.Choice("joiningKeyAfterMember", n+1) + 1 + k
+		joinIDs = append(joinIDs, id)
+	}
+	var after keys.PublicKeys
+	for i, k := range alphabet {
+		if !leaves[i] {
+			after = append(after, k)
+		}
+	}
+	for _, id := range joinIDs {
+		after = append(after, c36key(id))
+	}
+	// sorted by identity, as newAlphabetList returns it
+	for i := 1; i < len(after); i++ {
+		for j := i; j > 0 && c36ids[after[j-1]] > c36ids[after[j]]; j-- {
+			after[j-1], after[j] = after[j], after[j-1]
+		}
+	}
+	// the inner ring list: the alphabet (in its order) with extras inserted
+	ring := append(keys.PublicKeys(nil), alphabet...)
+	extras := vrt.Choice("extraInnerRingMembers", 3)
+	promoted := false
+	for e := 0; e < extras; e++ {
+		id := 500 + e
+		if !promoted && vrt.Bool("extraMemberIsAJoiningKey") {
+			id = joinIDs[0]
+			promoted = true
+		}
+		at := vrt.Choice("extraPosition", len(ring)+1)
+		ring = append(ring[:at:at], append(keys.PublicKeys{c36key(id)}, ring[at:]...)...)
+	}
+	res, err := updateInnerRing(ring, alphabet, after)
+	vrt.Assert(err == nil, "equal-length alphabets are accepted")
+	has := func(l keys.PublicKeys, id int) int {
+		c := 0
+		for _, x := range l {
+			if c36ids[x] == id {
+				c++
+			}
+		}
+		return c
+	}
+	for i := range res {
+		for j := 0; j < i; j++ {
+			if promoted {
+				vrt.Assert(c36ids[res[j]] != c36ids[res[i]], "no duplicates in the inner ring list (a joining key was already a non-alphabet inner ring member)")
+			} else {
+				vrt.Assert(c36ids[res[j]] != c36ids[res[i]], "no duplicates in the inner ring list")
+			}
+		}
+	}
+	for i, k := range alphabet {
+		if leaves[i] {
+			vrt.Assert(has(res, c36ids[k]) == 0, "a replaced key leaves the inner ring list")
+		} else {
+			vrt.Assert(has(res, c36ids[k]) == 1, "a kept alphabet key stays in the inner ring list")
+		}
+	}
+	for _, id := range joinIDs {
+		vrt.Assert(has(res, id) >= 1, "a joining key enters the inner ring list")
+	}
+	for _, k := range ring {
+		if id := c36ids[k]; id >= 500 {
+			vrt.Assert(has(res, id) == 1, "other inner ring members are kept")
+		}
+	}
+	if !promoted {
+		vrt.Assert(len(res) == len(ring), "the list keeps its length")
+	}
+	vrt.Reach("end")
+}
